@@ -12,6 +12,9 @@ def structured_tails():
     t = []
     t += [bytes([4, 0]), bytes([4, 1, 5]), bytes([4, 3, 5, 0x52, 0x45]), bytes([4, 1, 0]), bytes([4, 2, 1, 0x58]), cmd(b"\x05HELLO"), cmd(b"\x05READY\x01")]
     t += [cmd(b"\x05READY\x05ab"), cmd(b"\x05READY\x01a\x00\x00\x00\x09v"), cmd(b"\x05READY\x01a\xff\xff\xff\xffv"), cmd(b"\x05READY\x01a\x00\x00"), cmd(b"\x05READY\xffa")]
+    for big in (b"\x10\x00\x00\x00", b"\x7f\xff\xff\xff", b"\x80\x00\x00\x00", b"\x01\x00\x00\x00", b"\x00\x40\x00\x00"):
+        t.append(cmd(b"\x05READY\x01a" + big + b"v"))                       # declared property value of 256 MiB / 2 GiB / 16 MiB / 4 MiB, one byte present
+        t.append(cmd(b"\x05READY\x0bSocket-Type\x00\x00\x00\x03REQ\x08Identity" + big))
     t += [cmd(b"\x05READY\x01\xff\x00\x00\x00\x01v"), cmd(b"\xffREADY"), cmd(b"\x00"), cmd(b"\x05READY" + b"\x01a\x00\x00\x00\x01v" * 30, long=True)]
     for k in range(1, len(READY_REQ)):            # every truncation of a valid READY, frame size consistent with the truncation
         t.append(cmd(READY_REQ[:k]))
